@@ -627,6 +627,15 @@ class Dict(dict, base.Symbolic, pg_typing.CustomTyping):
           root_path=utils.KeyPath(name, self.sym_path),
       )
     if field and flags.is_type_check_enabled():
+      if (isinstance(value, (Dict, base.Symbolic.ListType))
+          and value.sym_parent is not None
+          and (value.sym_parent is not self
+               or value.sym_path != utils.KeyPath(name, self.sym_path))):
+        # A container that belongs to another tree is copied (as
+        # `_relocate_if_symbolic` would do below) BEFORE it is applied: the
+        # apply adopts this tree's partial mode, which must not change the
+        # original.
+        value = value.clone()
       value = field.apply(
           value,
           allow_partial=allow_partial,
